@@ -144,6 +144,8 @@ struct Outcome {
     all_ok: bool,
     panicked: bool,
     final_snapshot: Option<String>,
+    /// the state on the medium when a flush reported success after an earlier flush had failed
+    retry_snapshot: Option<String>,
 }
 
 fn run(n: usize, base: &[u8], arm: &dyn Fn(&mut MediumStats)) -> Outcome {
@@ -153,6 +155,7 @@ fn run(n: usize, base: &[u8], arm: &dyn Fn(&mut MediumStats)) -> Outcome {
     let failed = |m: &Medium| m.stats.borrow().failed_calls;
     let mut swallowed = false;
     let mut all_ok = true;
+    let mut retry_ok = false;
     let m2 = medium.clone();
     let result = catch_unwind(AssertUnwindSafe(|| {
         let before = failed(&m2);
@@ -187,9 +190,12 @@ fn run(n: usize, base: &[u8], arm: &dyn Fn(&mut MediumStats)) -> Outcome {
             let r = pkg.flush();
             if r.is_err() {
                 // the caller tries again (with the fault still there, or gone): whatever the
-                // outcome, no panic
-                let _ = pkg.flush();
-                let _ = pkg.flush();
+                // outcome, no panic; and a flush that then reports success has written what is pending
+                let r2 = pkg.flush();
+                let r3 = pkg.flush();
+                if all_ok && (r2.is_ok() || r3.is_ok()) {
+                    retry_ok = true;
+                }
             }
             // a crash right after flush: no destructor runs
             std::mem::forget(pkg);
@@ -220,7 +226,16 @@ fn run(n: usize, base: &[u8], arm: &dyn Fn(&mut MediumStats)) -> Outcome {
     } else {
         None
     };
-    Outcome { calls, swallowed, all_ok, panicked, final_snapshot }
+    let retry_snapshot = if retry_ok && !panicked {
+        let r = catch_unwind(AssertUnwindSafe(|| match msi::Package::open(Medium::new(medium.snapshot_bytes())) {
+            Ok(mut p) => snapshot(&mut p),
+            Err(e) => format!("reopen-err {}", kind_name(&e)),
+        }));
+        Some(r.unwrap_or_else(|_| "reopen-panic".to_string()))
+    } else {
+        None
+    };
+    Outcome { calls, swallowed, all_ok, panicked, final_snapshot, retry_snapshot }
 }
 
 /// `@fault_sweep <script> <write|read|seek> <transient|persistent>`
@@ -245,6 +260,7 @@ pub fn sweep(n: usize, kind: &str, mode: &str) -> String {
     let mut swallowed: Vec<u64> = vec![];
     let mut corrupt: Vec<u64> = vec![];
     let mut panics: Vec<u64> = vec![];
+    let mut retrylost: Vec<u64> = vec![];
     let mut ok_runs = 0u64;
     for k in 0..total {
         let o = run(n, &base, &|st: &mut MediumStats| {
@@ -264,6 +280,11 @@ pub fn sweep(n: usize, kind: &str, mode: &str) -> String {
         if o.swallowed {
             swallowed.push(k);
         }
+        if let Some(s) = &o.retry_snapshot {
+            if *s != expected {
+                retrylost.push(k);
+            }
+        }
         if o.all_ok {
             ok_runs += 1;
             if o.final_snapshot.as_deref() != Some(expected.as_str()) {
@@ -273,8 +294,9 @@ pub fn sweep(n: usize, kind: &str, mode: &str) -> String {
     }
     let show = |v: &Vec<u64>| v.iter().take(12).map(|x| x.to_string()).collect::<Vec<_>>().join(",");
     format!(
-        "points={} all_ok_runs={} swallowed={}[{}] corrupt={}[{}] panics={}[{}] clean_ok={}",
+        "points={} all_ok_runs={} swallowed={}[{}] corrupt={}[{}] panics={}[{}] retrylost={}[{}] clean_ok={}",
         total, ok_runs, swallowed.len(), show(&swallowed), corrupt.len(), show(&corrupt), panics.len(), show(&panics),
+        retrylost.len(), show(&retrylost),
         (clean.all_ok && !expected.starts_with("reopen-")) as i32
     )
 }
